@@ -31,7 +31,7 @@ CHECKS = {
                   "for real over an older network file, and real "
                   "`naunet init ... --render` runs with the written TOML and the constructor arguments of Network / TemplateLoader "
                   "captured and judged by Trace_ConfigRoundTrip.tla; rendered tree compared with the equivalent API rendering; summary table vs "
-                  "generated headers; bundled examples -> configuration; TLA+ spec Project.tla (project directory over init / edit / render / "
+                  "generated headers; bundled examples -> configuration; TLA+ spec Project.tla (project directory over init / new (blank project) / edit / render / "
                   "patch / re-init / Network.export with and without overwrite) model-checked, TLC-simulated histories replayed through the real "
                   "commands and API and validated by Trace_Project.tla",
         text="TLC checks RoundTripId for all option vectors with <= 2 tokens per option over the shapes plain / padded / inner blank / "
